@@ -11,10 +11,18 @@ package crypto
 //@ smt all (declare-fun sig_pk (Int BSeq) BSeq)
 //@ smt all (declare-fun pk_bytes (Int) BSeq)
 
+// Callers use the abstraction sig_ok / sig_pk (trusted: the library). The body itself is verified
+// (opt verify-body) for what it adds around the library: only a signature with V and a hash of 1..32
+// bytes reach the library, which gets exactly the stored 65 signature bytes and the caller's hash.
 //@ func (sig *Signature) RecoverPublicKey(hash) (pk, err)
 //@   trusted
+//@   opt verify-body
+//@   arith int
 //@   pure
 //@   requires sig != nil
+//@   callpre RecoverCompact: ref(signature) == ref(sig.bytes) && off(signature) == off(sig.bytes) && len(signature) == len(sig.bytes) && len(signature) == 65 && hash == caller_hash
+//@   ensures [body:accept] err == nil <==> len(sig.bytes) == 65 && 0 < len(hash) && len(hash) <= 32 && rc_ok(seq(sig.bytes), seq(hash))
+//@   ensures [body:key] err == nil ==> pk != nil
 //@   ensures (err == nil) == sig_ok(ref(sig), seq(hash))
 //@   ensures err == nil ==> pk != nil && pk_bytes(ref(pk)) == sig_pk(ref(sig), seq(hash))
 //@   ensures err != nil ==> pk == nil
